@@ -275,6 +275,7 @@ func writeLocks(repo, out string) {
 		}
 		fmt.Fprintf(&b, "Definition lock_table_%s : list minfo :=\n  [%s].\n\n", v, strings.Join(items, ";\n   "))
 	}
+	b.WriteString(nativeLockTable(repo))
 	old, err := os.ReadFile(out)
 	if err == nil && string(old) == b.String() {
 		return
